@@ -11,6 +11,37 @@ BIN = ["+", "-", "*", "&", "|", "^", "<", ">", "<=", ">=", "==", "!=", "&&", "||
 ASG = ["=", "+=", "-=", "*=", "|=", "&=", "^=", "<<=", ">>="]
 
 
+IDIOMS_C = [
+    "typedef struct { int x ; int y ; } P2 ;",
+    "static P2 mk ( int a ) { P2 r = { a , a + 1 } ; return r ; }",
+    "union U { int i ; char c [ 4 ] ; } ;",
+    "static int sw ( int a ) { switch ( a ) { case 1 : { g0 = 1 ; } break ; case 2 : { g1 = 2 ; } return 3 ; case 3 : g2 = 3 ; case 4 : g2 ++ ; break ; default : break ; } return 0 ; }",
+    "static void lp ( void ) { for ( ; ; ) { if ( g0 ++ > 3 ) break ; } while ( 1 ) { if ( g1 ++ > 3 ) break ; } do { g2 ++ ; } while ( g2 < 3 ) ; }",
+    "static int ( * fp ) ( int ) = sw ;",
+    "static int cm ( int a ) { return ( g0 = a , g1 = a + 1 , g0 + g1 ) ; }",
+    "static int tern ( int a ) { return a ? a > 2 ? 1 : 2 : a < - 2 ? 3 : 4 ; }",
+    "static const char * str ( void ) { return \"a\" \"b\" ; }",
+    "static int emp ( int a ) { if ( a ) ; else g0 = 1 ; while ( g0 -- > 0 ) ; ; return g0 ; }",
+    "static int lbl ( int a ) { if ( a ) goto end ; g0 = 5 ; end : ; return g0 ; }",
+    "enum E2 { X1 = 1 , X2 = X1 << 2 } ;",
+    "struct B { unsigned int f1 : 3 ; unsigned f2 : 1 ; } ;",
+    "static int neg ( int a ) { if ( ! ( a > 1 ) ) return - a ; if ( a > 2 && g0 || g1 ) return ( a ) ; return ( a == 1 ) ; }",
+    "static int nest ( int a ) { if ( a ) { if ( g0 ) { g1 = 1 ; } } else { g1 = 2 ; } if ( a ) if ( g0 ) g1 = 3 ; else g1 = 4 ; return g1 ; }",
+    "static void use_all ( void ) { ( void ) mk ( 1 ) ; lp ( ) ; ( void ) fp ; ( void ) cm ( 1 ) ; ( void ) tern ( 1 ) ; ( void ) str ( ) ; ( void ) emp ( 1 ) ; ( void ) lbl ( 1 ) ; ( void ) neg ( 1 ) ; ( void ) nest ( 1 ) ; }",
+]
+IDIOMS_ONLY_C = [
+    "static int use_lit ( int a ) { return ( ( P2 ) { a , 2 } ) . y ; }",
+    "static int de ( void ) { struct S s = { . a = 1 , . b = 2 } ; int q [ 3 ] = { [ 1 ] = 5 } ; return s . a + q [ 1 ] ; }",
+]
+IDIOMS_CPP = [
+    "class K1 { public : K1 ( ) : m ( 0 ) { } int get ( ) const { return m ; } ; private : int m ; } ;",
+    "static int lam ( int a ) { auto f = [ a ] ( int x ) { return x + a ; } ; return f ( 1 ) ; }",
+    "static int rng ( ) { int t = 0 ; for ( int x : arr ) { t += x ; } return t ; }",
+    "namespace n2 { namespace n3 { static int deep = 1 ; } }",
+    "static int cast ( long v ) { return static_cast < int > ( v ) + n2 :: n3 :: deep ; }",
+]
+
+
 class CGen:
     def __init__(self, rng, lang="C", stats=None, div_deref=True):
         self.r = rng
@@ -302,6 +333,10 @@ class CGen:
             # the goto-cleanup idiom: a `return;` that is NOT the last statement, and one that is
             self.emit(0, "void vg ( int a ) { if ( a ) goto out ; g0 = 1 ; return ; out : g1 = 2 ; }")
             self.emit(0, "void vh ( void ) { g0 = 2 ; return ; }")
+        if self.lang != "JAVA":
+            # idiom zoo: the constructs the code-modifying passes look for, in compilable form
+            for ln in IDIOMS_C + (IDIOMS_CPP if self.lang == "CPP" else IDIOMS_ONLY_C):
+                self.emit(0, ln)
         self.emit(0, "#if 1")
         self.emit(0, "void vf ( void ) { g0 = M1 ( g1 ) ; M2 ( g2 , g0 ) ; return ; }")
         self.emit(0, "#else")
